@@ -14,7 +14,7 @@ fn strip(line: &str) -> String {
     let mut v: Value = serde_json::from_str(line).unwrap();
     if let Some(o) = v.as_object_mut() {
         // journal-derived fields exist only on the instrumented backend
-        for k in ["jn", "leak", "js", "gen"] {
+        for k in ["jn", "jc", "leak", "js", "gen"] {
             o.remove(k);
         }
     }
@@ -60,10 +60,25 @@ pub fn run(args: &[String]) {
             continue;
         }
         let rs = seed.wrapping_mul(1_000_003).wrapping_add(r as u64);
-        let kind = r % 2;
+        let kind = r % 3;
         let gen = json!({"drv":"abs","args":format!("matrix --seed {seed} --runs {runs} --ops {ops} --only {r}")});
         let scenario = |rec: Rec| {
-            if kind == 0 {
+            if kind == 2 {
+                // a longer history whose tree-node traffic exceeds a small cache many times over:
+                // ~100 appends, then every block read and every other one cleared in scattered order
+                let n = 64 + (rs % 64);
+                let step = [37u64, 41, 29][(rs % 3) as usize];
+                let mut h: Vec<Op> = (0..n).map(|i| Op::Append(format!("block #{i} {}", "x".repeat((i % 7) as usize)).into_bytes())).collect();
+                for i in 0..n {
+                    let idx = (i * step + 5) % n;
+                    h.push(Op::Get(idx));
+                    if idx % 2 == 1 {
+                        h.push(Op::Clear(idx, idx + 1));
+                    }
+                }
+                let mut d = Driver { rec, rng: StdRng::seed_from_u64(rs ^ 1), suffix_salt: rs, cid: "w".into() };
+                d.history(&h, 0, &FaultCfg::none(), gen.clone());
+            } else if kind == 0 {
                 let mut rng = StdRng::seed_from_u64(rs);
                 let g = profile(if r % 4 == 0 { "small" } else { "long" }, ops);
                 let h = {
@@ -85,13 +100,19 @@ pub fn run(args: &[String]) {
                 rd.honest_run(gen.clone(), &g, &FaultCfg::none(), false);
             }
         };
+        // the stress history is about the cache only: instrumented and memory backends, all cache sizes
+        let stress: Vec<(&str, u8, u8)> = vec![
+            ("vstore/cache", 0, 1), ("vstore/3-nodes", 0, 2), ("vstore/1-node", 0, 3), ("vstore/13-nodes", 0, 4),
+            ("memory/1-node", 1, 3), ("memory/13-nodes", 1, 4),
+        ];
+        let configs: &Vec<(&str, u8, u8)> = if kind == 2 { &stress } else { &configs };
         let base = capture(0, 0, &work, &scenario);
         for l in &base {
             main.emit(serde_json::from_str(l).unwrap());
         }
         main.count("histories", 1);
         let sb: Vec<String> = base.iter().map(|l| strip(l)).collect();
-        for (name, backend, cache) in &configs {
+        for (name, backend, cache) in configs.iter() {
             let lines = capture(*backend, *cache, &work, &scenario);
             let sl: Vec<String> = lines.iter().map(|l| strip(l)).collect();
             let mut diff: Vec<Value> = vec![];
